@@ -14,7 +14,7 @@ THEOREMS = [NS + t for t in [
     "dma_window_select", "dma_window_read", "dma_window_write", "dma_window_independent", "dma_window_eight_copies",
     "mirror_host", "mirror_host_write", "mirror_dsp", "mirror_dsp_write",
     "write_no_event_unless_trigger", "read_no_event", "read_pure_unless_fifo",
-    "const_reads", "wo_read_unchanged", "accum_reads_or", "reset_keeps_icu_and_store"]] + [
+    "const_reads", "wo_read_unchanged", "accum_reads_or", "reset_clears_icu_and_store", "resetUpstream_keeps_icu_and_store"]] + [
     "Teakra.cell_frame", "Teakra.cell_readback", "Teakra.cell_events"]
 TRUSTED = ["hand-written model lean/TeakraModel/{Periph,Mmio,MmioKinds,Bus}.lean of src/mmio.cpp, src/memory_interface.*, "
            "src/shared_memory.h, src/core_timing.h and the wiring / Reset / host API of src/teakra.cpp (the peripheral "
